@@ -103,7 +103,7 @@ func init() {
 		Quick:     Budget{Runs: 160, MaxEvents: 180},
 		Thorough:  Budget{Runs: 6000, MaxEvents: 500},
 		Essential: []string{"c10.bid_checked"},
-		BatchProbe: []string{"c10.bid_checked", "c10.auction_closed_checked", "c10.price_decayed", "c10.auction_restarted", "c10.owner_refunded"},
+		BatchProbe: []string{"c10.bid_checked", "c10.auction_closed_checked", "c10.price_decayed", "c10.auction_restarted", "c10.owner_refunded", "c10.reserve_topped_up_auction", "c10.reserve_topped_up_after_partial_bids"},
 		TweakCfg: func(r *Rng, cfg *Config) {
 			if cfg.Knobs["liq_v2"] == 0 {
 				cfg.Knobs["liq_v2"] = 1
@@ -190,7 +190,7 @@ func registerDerived() {
 		Quick:      Budget{Runs: 160, MaxEvents: 180},
 		Thorough:   Budget{Runs: 6000, MaxEvents: 450},
 		Essential:  []string{"c14.message_under_breaker"},
-		BatchProbe: []string{"c14.message_under_breaker", "c14.block_under_breaker", "c14.message_after_esm", "c14.message_with_inactive_price"},
+		BatchProbe: []string{"c14.message_under_breaker", "c14.block_under_breaker", "c14.message_after_esm", "c14.mint_attempt_after_esm", "c14.mint_attempt_after_esm_without_kill_switch_record", "c14.message_with_inactive_price"},
 		TweakCfg: func(r *Rng, cfg *Config) {
 			if cfg.Scenario == "cdp+ctl" && r.Chance(2, 3) {
 				cfg.Knobs["esm"] = 1
@@ -228,7 +228,9 @@ func registerDerived() {
 			continue
 		}
 		e := derive(base, "+export", c20Gens)
-		i := derive(base, "+inject", c15Gens)
+		i := derive(base, "+inject", func(b func(w *World) []OpGen) func(w *World) []OpGen {
+			return c15Gens(func(w *World) []OpGen { return append(b(w), c15EnvGens()...) })
+		})
 		props["C20"].Scenarios = append(props["C20"].Scenarios, e)
 		props["C15"].Scenarios = append(props["C15"].Scenarios, i)
 		props["C16"].Scenarios = append(props["C16"].Scenarios, base)
